@@ -39,6 +39,7 @@ ASSUMPTIONS = [
     "np.searchsorted on an ascending array returns the first position whose entry is >= the key "
     "(checked against the model's linear scan and its binary search on every call)",
 ]
+OPTIMIZED_TWIN = True   # the implementation-side search is repeated under `python -O` (validation must not live in assert / __debug__)
 TRUSTED = ["numpy.random.default_rng(seed) determinism and uniformity", "numpy fancy indexing / broadcasting rules as modelled in ModelD.Resample.broadcastOk"]
 
 FAMILIES = ["dirichlet", "zeros", "duplicates", "dominant", "uniform", "dyadic", "tiny"]
